@@ -5,18 +5,21 @@
    A case = server type, the quirk variant the code currently shows, and a list of
    *segments*: "connection c sends these messages in one TCP write"; for each segment the
    harness recorded the replies the peer read (in order), the executions logged by the
-   registered object (connection, token), and whether the server had closed the
-   connection afterwards. *)
+   registered objects — the application object and the daemon's own Pyro.Daemon object —
+   (connection, target, token), and how the segment ended for the peer (still served / closed
+   by the server / neither answered nor closed).  A segment may end with the peer going away
+   (EOF or a message cut short, then disconnect) or staying silent beyond COMMTIMEOUT, and a
+   connection may have been denied by a full thread pool. *)
 From Coq Require Import List NArith Arith Bool.
 Import ListNotations.
 From V Require Import Model.HandshakeGate Gen.GenHandshake Gen.GenProtocol Harness.Cmp.
 
-Definition gen_cfg (q1 q2 : bool) : cfg :=
+Definition gen_cfg (q1 q2 q3 : bool) : cfg :=
   {| c_connect := t_connect; c_invoke := t_invoke; c_ping := t_ping;
      c_first_types := hs_first_types; c_later_types := req_types;
      c_gate := fun s => match s with Thread => thread_gate | Multiplex => mux_gate end;
      c_ok_only := hs_ok_only; c_marshal := marshal_id;
-     q_silent_unknown_ser := q1; q_silent_validator_cce := q2 |}.
+     q_silent_unknown_ser := q1; q_silent_validator_cce := q2; q_abort_unanswered := q3 |}.
 
 (* a reply as the peer sees it: wire type, exception flag, sequence number, serializer id,
    and for CONNECTFAIL the class of the reason text *)
@@ -24,7 +27,7 @@ Record oreply := { or_type : N; or_exc : bool; or_seq : N; or_ser : N; or_rsn : 
 
 Definition reason_eqb (a b : reason) : bool :=
   match a, b with
-  | RsnValidator, RsnValidator | RsnUnknownObject, RsnUnknownObject | RsnOther, RsnOther => true
+  | RsnValidator, RsnValidator | RsnUnknownObject, RsnUnknownObject | RsnDenied, RsnDenied | RsnOther, RsnOther => true
   | _, _ => false
   end.
 
@@ -41,18 +44,27 @@ Definition canon (k : rkind) (s i : N) : oreply :=
   | RError => {| or_type := msg_result; or_exc := true; or_seq := s; or_ser := i; or_rsn := None |}
   end.
 
-Record seg := { s_conn : nat; s_msgs : list msg;
-                s_replies : list oreply; s_execs : list (nat * N); s_closed : bool }.
+(* how a segment ended for the peer: the connection still answers the sync ping / the server closed it /
+   the server neither answers nor closes *)
+Inductive endst := EndOpen | EndClosed | EndSilent.
+Definition endst_eqb (a b : endst) : bool :=
+  match a, b with EndOpen, EndOpen | EndClosed, EndClosed | EndSilent, EndSilent => true | _, _ => false end.
 
-Record case := { k_sty : servertype; k_q1 : bool; k_q2 : bool; k_segs : list seg }.
+(* an execution as logged: connection, on the daemon's own object?, token *)
+Definition oexec := (nat * bool * N)%type.
 
-(* run the messages of one segment; collect all outputs *)
-Fixpoint run_seg (g : cfg) (sty : servertype) (st : conns) (c : nat) (ms : list msg) : conns * list out :=
+Record seg := { s_conn : nat; s_denied : bool; s_ins : list input;
+                s_replies : list oreply; s_execs : list oexec; s_end : endst }.
+
+Record case := { k_sty : servertype; k_q1 : bool; k_q2 : bool; k_q3 : bool; k_segs : list seg }.
+
+(* run the inputs of one segment; collect all outputs *)
+Fixpoint run_seg (g : cfg) (sty : servertype) (st : conns) (c : nat) (d : bool) (ms : list input) : conns * list out :=
   match ms with
   | [] => (st, [])
   | m :: r =>
-      let '(st1, o1) := step g sty st {| e_conn := c; e_msg := m |} in
-      let '(st2, o2) := run_seg g sty st1 c r in
+      let '(st1, o1) := step g sty st {| e_conn := c; e_in := m; e_denied := d |} in
+      let '(st2, o2) := run_seg g sty st1 c d r in
       (st2, o1 ++ o2)
   end.
 
@@ -70,32 +82,35 @@ Fixpoint foreign_replies (c : nat) (os : list out) : nat :=
   | Reply c' _ _ _ :: r => (if Nat.eqb c' c then 0 else 1) + foreign_replies c r
   | _ :: r => foreign_replies c r
   end.
-Fixpoint execs_of (os : list out) : list (nat * N) :=
+Definition is_daemon (t : target) : bool := match t with TDaemon => true | TUser => false end.
+Fixpoint execs_of (os : list out) : list oexec :=
   match os with
   | [] => []
-  | Exec c t :: r => (c, t) :: execs_of r
+  | Exec c t tok :: r => (c, is_daemon t, tok) :: execs_of r
   | _ :: r => execs_of r
   end.
 
-Definition is_closed (s : cstate) : bool := match s with Closed => true | _ => false end.
+Definition end_of (s : cstate) : endst :=
+  match s with Closed => EndClosed | Abandoned => EndSilent | _ => EndOpen end.
 
-Definition exec_eqb (a b : nat * N) : bool := Nat.eqb (fst a) (fst b) && (snd a =? snd b)%N.
-Definition subset_execs (a b : list (nat * N)) : bool := forallb (fun x => existsb (exec_eqb x) b) a.
+Definition exec_eqb (a b : oexec) : bool :=
+  Nat.eqb (fst (fst a)) (fst (fst b)) && Bool.eqb (snd (fst a)) (snd (fst b)) && (snd a =? snd b)%N.
+Definition subset_execs (a b : list oexec) : bool := forallb (fun x => existsb (exec_eqb x) b) a.
 (* oneway calls run in their own threads: the log order inside one segment is not fixed *)
-Definition same_execs (a b : list (nat * N)) : bool :=
+Definition same_execs (a b : list oexec) : bool :=
   Nat.eqb (length a) (length b) && subset_execs a b && subset_execs b a.
 
 Definition model_seg (g : cfg) (sty : servertype) (st : conns) (s : seg)
-  : conns * (list oreply * list (nat * N) * bool) :=
-  let '(st', os) := run_seg g sty st (s_conn s) (s_msgs s) in
-  (st', (replies_of (s_conn s) os, execs_of os, is_closed (st' (s_conn s)))).
+  : conns * (list oreply * list oexec * endst) :=
+  let '(st', os) := run_seg g sty st (s_conn s) (s_denied s) (s_ins s) in
+  (st', (replies_of (s_conn s) os, execs_of os, end_of (st' (s_conn s)))).
 
 Definition check_seg (g : cfg) (sty : servertype) (st : conns) (s : seg) : conns * bool :=
-  let '(st', os) := run_seg g sty st (s_conn s) (s_msgs s) in
+  let '(st', os) := run_seg g sty st (s_conn s) (s_denied s) (s_ins s) in
   (st', list_eqb oreply_eqb (replies_of (s_conn s) os) (s_replies s) &&
         Nat.eqb (foreign_replies (s_conn s) os) 0 &&
         same_execs (execs_of os) (s_execs s) &&
-        Bool.eqb (is_closed (st' (s_conn s))) (s_closed s)).
+        endst_eqb (end_of (st' (s_conn s))) (s_end s)).
 
 Fixpoint check_segs (g : cfg) (sty : servertype) (st : conns) (l : list seg) : bool :=
   match l with
@@ -104,13 +119,13 @@ Fixpoint check_segs (g : cfg) (sty : servertype) (st : conns) (l : list seg) : b
   end.
 
 Definition check_case (k : case) : bool :=
-  check_segs (gen_cfg (k_q1 k) (k_q2 k)) (k_sty k) init (k_segs k).
+  check_segs (gen_cfg (k_q1 k) (k_q2 k) (k_q3 k)) (k_sty k) init (k_segs k).
 
 (* diagnostics: what the model says for every segment *)
 Fixpoint model_segs (g : cfg) (sty : servertype) (st : conns) (l : list seg)
-  : list (list oreply * list (nat * N) * bool) :=
+  : list (list oreply * list oexec * endst) :=
   match l with
   | [] => []
   | s :: r => let '(st', o) := model_seg g sty st s in o :: model_segs g sty st' r
   end.
-Definition model_case (k : case) := model_segs (gen_cfg (k_q1 k) (k_q2 k)) (k_sty k) init (k_segs k).
+Definition model_case (k : case) := model_segs (gen_cfg (k_q1 k) (k_q2 k) (k_q3 k)) (k_sty k) init (k_segs k).
